@@ -29,9 +29,8 @@ P = {
          'reply layouts transcribe the pinned commit; kernel float primitives for amps'),
  "C09": ("proof", 'Theorems for every reply script: the three reply parsers raise only what the API wraps; get_state, get_breeze_state and get_shutter_state end in a response or RuntimeError, write one frame and raise on an empty login reply, two frames otherwise; every type-2 operation and thermostat control raise RuntimeError after the login frame on an empty login reply; successful iff non-empty. Each run drives the real methods with every prefix of valid replies, random and corrupted replies, and all thermostat request shapes with an empty reply at each step.', "5 C09 / 12.2",
          'the exception class each Python primitive raises is the modelled part, validated by the malformed streams'),
- "C10": ("proof", "Theorems for every zone table: a whole record parses to its id, recurrence, day set, local start and end; chunking and "
-         "region lemmas; per run replies built by the Spec encoder are parsed by the real code under a virtual clock in several zones and "
-         "judged by a zoneinfo oracle; create -> list-back round trips.", "5 C10", "relative to trusted zone data (TZif)"),
+ "C10": ("proof", 'Theorems for every zone table: a reply holding whole 16-byte records is parsed record by record with the first record of a slot id winning (C10_list, C10_first_record_wins, C10_one_schedule_per_slot); every whole record with a decodable day mask parses to its id, recurrence flag, day set and local start / end, duration and display never failing (C10_record_always_parses, C10_record); chunking and region lemmas. Each run: replies built by the Spec encoder parsed by the real code under a virtual clock in several zones and judged by a zoneinfo oracle; create_schedule -> captured record -> listed back.', "5 C10 / 12.2",
+         'relative to trusted zone data (TZif); the create/read-back half is the composition of C11 and C12 theorems plus the per-run stream'),
  "C11": ("proof", "Theorems for every zone table, instant and existing minute: the encoder returns a pre-image (mktime modelled as a search "
          "over the zone's offsets) and decode(encode) is the identity; per run 8+ zones x DST dates x minutes under TZ + virtual clock, "
          "judged by zoneinfo.", "5 C11", "libc following the zone table is checked by correspondence only"),
@@ -40,9 +39,8 @@ P = {
  "C13": ("proof", "Theorems for every zone table, instant, start minute and duplicate-free day set in any order: the text equals the Spec's earliest-future-occurrence choice; the named weekday is selected, 'today' only with the start still ahead, a week ahead only when today's time has passed. Each run: weekday x day-set x minute grids under TZ + virtual clock in several zones, judged with zoneinfo facts.", "5 C13 / 12.2",
          'libc following the zone table is checked by correspondence only'),
  "C14": ("proof", "Theorem for all 1440 x 1440 pairs: duration = H:MM:SS of (end - start) mod 24 h; per run 13 000 pairs (thorough: all 2 073 600) on the real code.", "5 C14", ""),
- "C15": ("proof", "Theorems: the pop loop returns the most specific stored prefix for every key list and set; the length field is LE16; "
-         "per run generated IR sets x requests are built by the real remote and compared with the model and a declarative Spec (search "
-         "over the set, clamp, off / on_ rules, capabilities).", "5 C15", "partial: build_command = Spec is checked per run by the oracle, not yet one theorem"),
+ "C15": ("proof", "Theorems for every IR set and every request: the remote built from the set has exactly the capabilities present in it (C15_capabilities: modes in first-appearance order, min/max over two-digit keys, toggle, separate swing); build_command returns the code and length field the declarative Spec names - most specific stored key among exact / without swing / without fan level after clamping, 'off' for non-toggle remotes, 'on_' only when a toggle remote changes power state, RuntimeError for an unsupported mode (C15_build_command); loop lemma and LE16 length lemma. Each run: generated IR sets x requests on shared remote objects, built by the real remote (directly and through the remote manager) and compared with model and Spec.", "5 C15 / 12.2",
+         'dict / re.match / str.isdigit semantics of the capability scan are modelled (ASCII keys); where none of the three keys is stored the property is silent'),
  "C16": ("proof", "Theorems for every reply script: nothing actionable and empty login reply raise RuntimeError after the login frame only; "
          "set_message_length writes the final length; per run 1000+ (current state, request subset, remote kind, update flag, fault) cases "
          "against the real client, expected frames composed from the Spec layouts and the Spec's IR choice.", "5 C16", "partial: merge-and-frames is checked per run by the oracle"),
